@@ -271,8 +271,9 @@ def cases(draw):
         for d in DEFAULT_KEYWORDS:
             if d not in kws and any(d.lower() in n.lower() for n in names):
                 kws.append(d)
-    if kws == []:
-        # same ambiguity for an empty list: only neutral names (no default keyword in any case)
+    if kws == [] and draw(st.booleans()):
+        # an empty list configures no keyword at all: names with a default keyword stay in every other case and must not be
+        # reported for it; in the remaining cases only neutral names are used
         for f in files:
             for c in _all_classes(f["classes"]):
                 for d in DEFAULT_KEYWORDS:
